@@ -57,6 +57,14 @@ template <typename CT> static bool civilT(const std::string& op, const Toks& t) 
     CT c(v[0], v[1], v[2], v[3], v[4], v[5]);
     CT r = (op == "add") ? c + v[6] : c - v[6];
     out = fieldsStr(r);
+    if (verif::ub_flags == 0) {
+      // the other spellings of the same step must agree: compound assignment, n + c, and ++ / -- for single steps
+      CT a1 = c; if (op == "add") a1 += v[6]; else a1 -= v[6];
+      bool same = (a1 == r);
+      if (op == "add") { CT a2 = v[6] + c; same = same && (a2 == r); }
+      if (v[6] == 1) { CT a3 = c, a4 = c; if (op == "add") { ++a3; CT o = a4++; same = same && (o == c); } else { --a3; CT o = a4--; same = same && (o == c); } same = same && (a3 == r) && (a4 == r); }
+      if (!same) out += " OPERATOR-FORMS-DISAGREE " + fieldsStr(a1);
+    }
   } else if (op == "diff") {
     if (!ints(t, 2, 12, v)) return false;
     CT a(v[0], v[1], v[2], v[3], v[4], v[5]);
